@@ -19,10 +19,18 @@ type State struct {
 	// snaps: the state right after the most recent Lock of each mutex on this path (key: the
 	// guard declaration's key; "#last": the most recent Lock of any mutex). Snapshots carry none.
 	snaps map[string]*State
+	// held: the locks this path holds, with the cells (guarded fields / variables) they protect
+	held []heldLock
+}
+
+type heldLock struct {
+	key   string
+	owner string
+	cells []immCell
 }
 
 func (s *State) clone() *State {
-	n := &State{heaps: make(map[string]string, len(s.heaps)), base: s.base, alloc: s.alloc}
+	n := &State{heaps: make(map[string]string, len(s.heaps)), base: s.base, alloc: s.alloc, held: append([]heldLock(nil), s.held...)}
 	for k, v := range s.heaps {
 		n.heaps[k] = v
 	}
@@ -142,6 +150,7 @@ type Frame struct {
 	// not capture, as arbitrary values (contracts may mention them)
 	outerVars map[string]sval
 	lastLockReach string
+	csHit     map[string]bool // cs clauses that applied to some section
 	csCount   map[string]int
 	noopFuncs map[string]bool
 	curBlock  *ssa.BasicBlock
@@ -943,6 +952,22 @@ func (f *Frame) mergeStates(edges []inEdge) *State {
 		}
 		out.snaps[k] = f.mergeStates(sub)
 	}
+	// held locks: kept where all incoming paths agree
+	sameHeld := true
+	for _, e := range edges[1:] {
+		if len(e.st.held) != len(edges[0].st.held) {
+			sameHeld = false
+			continue
+		}
+		for i := range e.st.held {
+			if e.st.held[i].key != edges[0].st.held[i].key || e.st.held[i].owner != edges[0].st.held[i].owner {
+				sameHeld = false
+			}
+		}
+	}
+	if sameHeld {
+		out.held = append([]heldLock(nil), edges[0].st.held...)
+	}
 	return out
 }
 
@@ -1100,6 +1125,36 @@ func (f *Frame) havocState(st *State, w *WriteSet, why string) *State {
 	sort.Strings(changed)
 	for _, hn := range changed {
 		f.heapWF(hn, out.heaps[hn], na)
+	}
+	if why != "lock" {
+		// state guarded by a lock this goroutine holds cannot be changed by anybody else, nor by
+		// code called while holding it (a non-reentrant mutex): the guarded fields of the owner
+		// and the contents of guarded maps keep their values
+		for _, hl := range st.held {
+			for _, cell := range hl.cells {
+				for _, lf := range leaves(cell.typ) {
+					if _, ok := lf.typ.Underlying().(*types.Array); ok {
+						continue
+					}
+					hn := heapName(lf.typ)
+					a := addrPath(cell.addr, lf.path)
+					hb, ha := f.heap(st, hn), f.heap(out, hn)
+					if hb != ha {
+						f.ctx.Fact(fmt.Sprintf("(= (select %s %s) (select %s %s))", ha, a, hb, a))
+					}
+				}
+				if mt, ok := cell.typ.Underlying().(*types.Map); ok {
+					mv := f.load(st, cell.addr, cell.typ)
+					d, v := mapHeaps(f.ctx, mt)
+					for _, hn := range []string{d, v, mapLenHeap(f.ctx, mt)} {
+						hb, ha := f.heap(st, hn), f.heap(out, hn)
+						if hb != ha {
+							f.ctx.Fact(fmt.Sprintf("(= (select %s %s) (select %s %s))", ha, mv, hb, mv))
+						}
+					}
+				}
+			}
+		}
 	}
 	if f.top != nil {
 		for _, c := range f.top.immCells {
